@@ -105,8 +105,38 @@ func minimal(s *astsynth.Spec) *astsynth.Spec {
 
 // classify reduces a failing tree to its smallest failing subtree and names the slot whose
 // occupant causes the failure (replacing it by an identifier makes the subtree print correctly).
+// reduce replaces, top-down, every operand of root that is not needed for the failure by an
+// identifier (statements by a call statement): greedy delta debugging on the tree.
+func reduce(root, at *astsynth.Spec) {
+	var kids []slot
+	logicalChildren(at, &kids)
+	for _, k := range kids {
+		c := k.owner.C[k.index]
+		if c.K == "Ident" || c.K == "Block" {
+			if c.K == "Block" {
+				reduce(root, c)
+			}
+			continue
+		}
+		var repl *astsynth.Spec = &astsynth.Spec{K: "Ident", S: "z"}
+		if c.IsStmt() {
+			repl = &astsynth.Spec{K: "ExprStmt", C: []*astsynth.Spec{{K: "Call", C: []*astsynth.Spec{{K: "Ident", S: "z"}}}}}
+			if c.K == "ExprStmt" && len(c.C) == 1 && c.C[0].K == "Call" && len(c.C[0].C) == 1 && c.C[0].C[0].K == "Ident" {
+				continue
+			}
+		}
+		k.owner.C[k.index] = repl
+		if fails(root) {
+			continue // not needed
+		}
+		k.owner.C[k.index] = c
+		reduce(root, c)
+	}
+}
+
 func classify(s *astsynth.Spec) (class string, min *astsynth.Spec) {
 	min = minimal(s)
+	reduce(min, min)
 	var kids []slot
 	logicalChildren(min, &kids)
 	for _, k := range kids {
@@ -122,7 +152,48 @@ func classify(s *astsynth.Spec) (class string, min *astsynth.Spec) {
 		bad := fails(min)
 		k.owner.C[k.index] = c
 		if !bad {
-			return astsynth.ClassOf(k.owner, k.index, c), min
+			class := astsynth.ClassOf(k.owner, k.index, c)
+			// an ErrWrap ! or ? at the right edge of an operand that is followed by ':' (case
+			// list, map key, slice bound): one family whatever lies between slot and ErrWrap
+			if slotName := astsynth.Slot(k.owner.K, k.index); k.owner.K == "Case" || k.owner.K == "KeyValue" && slotName == "Key" || k.owner.K == "Slice" && slotName != "X" {
+				r := c
+				for r != nil && (r.K == "Binary" || r.K == "Unary" || r.K == "Star" || r.K == "Lambda" && r.F&2 == 0 || r.K == "ErrWrap" && r.Op == "?:") {
+					r = r.C[len(r.C)-1]
+				}
+				if r != nil && r != c && r.K == "ErrWrap" && r.Op != "?:" {
+					return astsynth.ClassOf(k.owner, k.index, r) + "@right-edge", min
+				}
+			}
+			// does the pair alone (operands of c replaced by identifiers) already fail? If not,
+			// the shape is three levels deep: name the operand of c that is needed as well.
+			var sub []slot
+			logicalChildren(c, &sub)
+			saved := make([]*astsynth.Spec, len(sub))
+			for i, g := range sub {
+				saved[i] = g.owner.C[g.index]
+				if !saved[i].IsStmt() {
+					g.owner.C[g.index] = &astsynth.Spec{K: "Ident", S: "y"}
+				}
+			}
+			pairFails := fails(min)
+			for i, g := range sub {
+				g.owner.C[g.index] = saved[i]
+			}
+			if !pairFails {
+				for i, g := range sub {
+					if saved[i].IsStmt() || saved[i].K == "Ident" {
+						continue
+					}
+					g.owner.C[g.index] = &astsynth.Spec{K: "Ident", S: "y"}
+					still := fails(min)
+					g.owner.C[g.index] = saved[i]
+					if !still {
+						return class + ">" + astsynth.ClassOf(g.owner, g.index, saved[i]), min
+					}
+				}
+				return class + ">combination", min
+			}
+			return class, min
 		}
 	}
 	return min.K + ":combination", min
@@ -188,12 +259,44 @@ func excluded(s *astsynth.Spec) string {
 			return "brace-expression-in-control-clause"
 		}
 	case "ExprStmt", "Assign", "Send", "IncDec":
-		if l := leftmost(s); l.K == "Composite" && l.C[0] == nil || l.K == "Compr" && l.Op == "{" {
-			return "statement-starts-with-brace"
+		heads := []*astsynth.Spec{s}
+		if s.K == "Assign" {
+			heads = s.C[:s.F]
+		}
+		for _, h := range heads {
+			if l := leftmost(h); l.K == "Composite" && l.C[0] == nil || l.K == "Compr" && l.Op == "{" {
+				return "statement-starts-with-brace"
+			}
+		}
+		if s.K == "Send" {
+			r := s.C[0]
+			for r != nil && (r.K == "Binary" || r.K == "Unary" || r.K == "Star") {
+				r = r.C[len(r.C)-1]
+			}
+			if r != nil && r.K == "SliceLit" {
+				return "slice-literal-reads-as-array-type"
+			}
+		}
+	case "Composite", "KeyValue", "SliceLit", "Compr":
+		// inside a literal "{" starts a nested literal: an element that merely begins with a
+		// brace expression reads as one
+		for i, c := range s.C {
+			if c == nil || s.K == "Composite" && i == 0 {
+				continue
+			}
+			if l := leftmost(c); l != c && (l.K == "Composite" && l.C[0] == nil || l.K == "Compr" && l.Op == "{") {
+				return "element-starts-with-brace"
+			}
 		}
 	}
 	switch s.K {
-	case "Binary", "Call", "CmdCall", "Index", "IndexList", "Slice", "Send":
+	case "Binary", "Unary", "Star", "Selector", "TypeAssert", "ErrWrap":
+		for _, c := range s.C {
+			if c != nil && c.K == "SliceLit" {
+				return "slice-literal-reads-as-array-type"
+			}
+		}
+	case "Call", "CmdCall", "Index", "IndexList", "Slice", "Send":
 		if len(s.C) > 0 && s.C[0] != nil && s.C[0].K == "SliceLit" {
 			return "slice-literal-reads-as-array-type"
 		}
@@ -209,6 +312,7 @@ func excluded(s *astsynth.Spec) string {
 type info struct {
 	rejected bool
 	why      string
+	min      *astsynth.Spec // smallest failing subtree, when the case fails
 	printed  string
 }
 
@@ -230,6 +334,7 @@ func evaluate(c Case) (v *vk.Verdict, in info) {
 		return nil, in
 	}
 	class, min := classify(c.Tree)
+	in.min = min
 	_, minPrinted := roundTrip(min)
 	return vk.Bad(class, "smallest failing subtree %s prints as %q (reference rendering %q); whole tree prints as %q: %s",
 		astsynth.Dump(astsynth.Build(min)), strings.TrimSpace(minPrinted), astsynth.Render(min, false), strings.TrimSpace(printed), problem), in
@@ -299,7 +404,37 @@ func needsCare(s *astsynth.Spec) bool {
 	return false
 }
 
+// exitsProcess: a func literal whose body directly holds a for-in statement makes the printer
+// call log.Fatalf (ForPhraseStmt is measured through the expression path). While that is a listed
+// finding (class "crash", isolated regress file) such trees are not evaluated in-process.
+func exitsProcess(s *astsynth.Spec) bool {
+	if s == nil {
+		return false
+	}
+	if s.K == "FuncLit" {
+		for _, c := range s.C {
+			if c != nil && c.K == "ForIn" {
+				return true
+			}
+		}
+	}
+	for _, c := range s.C {
+		if exitsProcess(c) {
+			return true
+		}
+	}
+	return false
+}
+
 func run(t failer, c Case, classes ...string) {
+	if exitsProcess(c.Tree) {
+		if vk.R.HasKnown("crash") {
+			vk.R.Excluded("crash")
+			vk.R.Case(false, "")
+			return
+		}
+		vk.R.Current("roundtrip", c) // if the process dies the driver re-runs exactly this case
+	}
 	v, in := evaluate(c)
 	if in.rejected {
 		vk.R.Rejected(in.why)
@@ -315,6 +450,9 @@ func run(t failer, c Case, classes ...string) {
 	if nt {
 		vk.R.Sample(strings.TrimSpace(in.printed))
 	}
+	if v != nil && in.min != nil {
+		c = Case{Tree: in.min} // the replay holds the reduced tree: no shrinking needed
+	}
 	vk.R.Check(t, "roundtrip", c, v)
 }
 
@@ -326,7 +464,7 @@ func (s soft) Helper()                   {}
 
 // TestPairs enumerates the complete depth-2 catalogue.
 func TestPairs(t *testing.T) {
-	pairs := astsynth.Pairs()
+	pairs := append(astsynth.Pairs(), astsynth.Triples()...)
 	n := 0
 	for i, p := range pairs {
 		if i%vk.R.Shards != vk.R.Shard {
@@ -346,14 +484,15 @@ func steering() astsynth.Config {
 
 func TestRandomExpr(t *testing.T) {
 	g := astsynth.Expr(steering())
-	vk.R.Rapid(t, 1, 14000, 350000, func(t *rapid.T) {
-		run(t, Case{Tree: g.Draw(t, "tree")}, "src=random-expr")
+	vk.R.Rapid(t, 1, 14000, 350000, func(rt *rapid.T) {
+		// soft: every failing shape of the run is reported (each already reduced), not only the first
+		run(soft{t}, Case{Tree: g.Draw(rt, "tree")}, "src=random-expr")
 	})
 }
 
 func TestRandomStmt(t *testing.T) {
 	g := astsynth.Stmt(steering())
-	vk.R.Rapid(t, 2, 6000, 150000, func(t *rapid.T) {
-		run(t, Case{Tree: g.Draw(t, "tree")}, "src=random-stmt")
+	vk.R.Rapid(t, 2, 6000, 150000, func(rt *rapid.T) {
+		run(soft{t}, Case{Tree: g.Draw(rt, "tree")}, "src=random-stmt")
 	})
 }
